@@ -135,6 +135,52 @@ func LocksWholeBody(fd *ast.FuncDecl) bool {
 func PackageVars(dir string) ([]string, error) { return packageVars(dir) }
 
 // packageVars lists the package-level variables of the non-test files of a directory.
+// mutablePackageVars is packageVars without what cannot carry state from one call to the next:
+// the blank identifier (interface assertions) and error sentinels (initialised by errors.New
+// or fmt.Errorf and nothing else).
+func mutablePackageVars(dir string) ([]string, error) {
+	ents, err := os.ReadDir(dir)
+	if err != nil {
+		return nil, err
+	}
+	fset := token.NewFileSet()
+	var out []string
+	for _, e := range ents {
+		n := e.Name()
+		if e.IsDir() || !strings.HasSuffix(n, ".go") || strings.HasSuffix(n, "_test.go") {
+			continue
+		}
+		f, err := parser.ParseFile(fset, filepath.Join(dir, n), nil, 0)
+		if err != nil {
+			return nil, err
+		}
+		for _, d := range f.Decls {
+			gd, ok := d.(*ast.GenDecl)
+			if !ok || gd.Tok != token.VAR {
+				continue
+			}
+			for _, sp := range gd.Specs {
+				vs := sp.(*ast.ValueSpec)
+				for i, id := range vs.Names {
+					if id.Name == "_" {
+						continue
+					}
+					if i < len(vs.Values) {
+						if c, ok := vs.Values[i].(*ast.CallExpr); ok {
+							if fn := selString(c.Fun); fn == "errors.New" || fn == "fmt.Errorf" {
+								continue
+							}
+						}
+					}
+					out = append(out, strconv.Quote(id.Name))
+				}
+			}
+		}
+	}
+	sort.Strings(out)
+	return out, nil
+}
+
 func packageVars(dir string) ([]string, error) {
 	ents, err := os.ReadDir(dir)
 	if err != nil {
@@ -298,7 +344,7 @@ func Facts(repo string) (string, error) {
 		fmt.Fprintf(&sb, "/-- other functions that assign to a field of a value of that type -/\ndef stanzaEncoderOutsideWriters : Option (List String) := some [%s]\n", q(os))
 	}
 	// package-level variables of internal/marshal: state shared between calls and sessions
-	mg, err := packageVars(filepath.Join(repo, "internal", "marshal"))
+	mg, err := mutablePackageVars(filepath.Join(repo, "internal", "marshal"))
 	if err != nil {
 		sb.WriteString("def marshalGlobals : Option (List String) := none\n")
 	} else {
